@@ -215,6 +215,12 @@ def chains(rich=False, nested=True, three=True):
         pt, src = build_pkg(kind, [("I", f"{t6}.q"), ("I", f"{j6}.pt")])
         producers.append((pt, f"Select(ds, lambda {e}: First(SelectMany({e}.jets, lambda {j6}: Select({j6}.tr, lambda {t6}: {src}))))"))
 
+    # ... and of TWO nested SelectMany levels whose innermost Select builds the packages
+    for kind in ("dic", "tup"):
+        j9, t9, j10 = nm.fresh("j"), nm.fresh("t"), nm.fresh("j")
+        pt, src = build_pkg(kind, [("I", f"{t9}.q"), ("I", f"{j10}.pt")])
+        producers.append((pt, f"Select(ds, lambda {e}: First(SelectMany({e}.jets, lambda {j9}: SelectMany({j9}.tr, lambda {t9}: "
+                              f"Select({e}.jets, lambda {j10}: {src})))))"))
     for s_ in extra_chains:
         if emit(s_):
             yield s_
